@@ -87,6 +87,10 @@ func main() {
 			fmt.Println(err)
 			os.Exit(2)
 		}
+		if *dump == "tpl" {
+			rules.DumpTpl(rules.NewCtx(p, report.New("dump", "quick", *verif, 0), "quick"))
+			return
+		}
 		if *dump == "external" {
 			rules.DumpExternal(p)
 			return
